@@ -18,12 +18,19 @@ class FakeServer:
         self.data_writers = []
         self.commands = []
         self.listing_by_arg = {}
+        self.sent = b""               # everything written on control connections
 
     async def start(self):
         self.server = await asyncio.start_server(self.handle, "127.0.0.1", self.port)
 
     async def handle(self, reader, writer):
         self.writers.append(writer)
+        orig_write = writer.write
+
+        def logged_write(data):
+            self.sent += bytes(data)
+            orig_write(data)
+        writer.write = logged_write
         writer.write(self.replies.get("greeting", b"220 hi\r\n"))
         pending_data = asyncio.Queue()
 
@@ -82,6 +89,29 @@ class FakeServer:
             if verb == "QUIT":
                 break
         writer.close()
+
+    def owes_nothing(self):
+        """True when every command received so far (and the greeting) has been answered by a *complete* final reply:
+        a client that is still waiting then waits for something that will never come"""
+        raw = self.sent
+        finals, pos, cur = 0, 0, None
+        while True:
+            nl = raw.find(b"\n", pos)
+            if nl < 0:
+                break
+            line = raw[pos:nl + 1].decode("utf-8", "replace").rstrip("\r\n")
+            pos = nl + 1
+            if cur is None:
+                if len(line) > 3 and line[3] == "-" and line[:3].isdigit():
+                    cur = line[:3]
+                elif line[:3].isdigit() and (len(line) == 3 or line[3] == " "):
+                    finals += 0 if line.startswith("1") else 1
+                else:
+                    return False            # not a well-formed reply: the client may legitimately be confused
+            elif line[:3] == cur and line[3:4] in (" ", ""):
+                finals += 0 if cur.startswith("1") else 1
+                cur = None
+        return cur is None and pos == len(raw) and finals >= len(self.commands) + 1
 
     def hang_up(self):
         """nothing more will ever be sent: close every connection (the client then sees end of stream)"""
